@@ -3,7 +3,7 @@
    (tmin, N-|I0|-|R0|, |I0|, |R0|); with full data an initially recovered node has the
    history [(tmin,R)] and nothing else, an initially infected node starts (tmin,I) (or is
    [(tmin,R)] when its duration is 0), every other node's history starts at tmin. *)
-From EoNV Require Import Prelude Samp Graph EventSIR C05x C05xEsirInv C05xGeneric C18xEsirOrder.
+From EoNV Require Import Prelude Samp Graph EventSIR InitChk C05xEsirInv C05xGeneric C18xEsirOrder.
 Require Import Lqa.
 
 Lemma mem_true_In : forall u l, mem u l = true <-> In u l.
